@@ -16,3 +16,20 @@ prop(
     ),
     assumptions=['enum.Flag: & is set intersection, | is set union, truthiness is non-emptiness, auto() yields distinct single bits'],
 )
+
+prop(
+    'C19',
+    ['C1', 'C2', 'C3'],
+    explanation=(
+        'Path extraction of hpl.cli.main (try/except summarised per handler): C1 every handler path prints a diagnostic, '
+        'returns a non-zero int and prints no JSON; the only return 0 is reached by completing the try body with the '
+        'result of a parse_* call; Exception is handled; every parse_* call is lexically inside that try. C2 the success '
+        'paths are guarded by the -p flag (dest resolved from add_argument): set -> parse_property(raw argument), unset '
+        '-> parse_specification(text read from the file named by the argument). C3 the JSON path prints '
+        'json.dumps(asdict(parse result, value_serializer=S)) to stdout with no filter/recurse=False; S maps Enum -> '
+        '.value, non-finite float -> None under an isinstance(float) guard, everything else unchanged; the closure of '
+        'field types reachable from HplSpecification is JSON-native after that mapping. Not decided: argparse usage '
+        'errors/--version exits, wording of diagnostics, attrs.asdict itself (trusted).'
+    ),
+    assumptions=['attrs.asdict recurses into attrs instances, tuples and dicts and applies value_serializer to every leaf', 'json.dumps of str/int/finite float/bool/None/list/dict is strictly valid JSON'],
+)
